@@ -86,7 +86,7 @@ class DrillholeScenario(BaseScenario):
 
     def make_config(self, rng):
         return {"gc": rng.choices(["none", "op", "io"], [3, 4, 3])[0], "gc_density": rng.choice([0.2, 0.5]), "h5repack": "absent", "n_ops": rng.choice([4, 8, 12, 20]),
-                "poison": rng.choice(POISONS), "start": rng.choice(["bare", "collar", "full", "full"]), "hold": rng.random() < 0.5}
+                "poison": rng.choice(POISONS), "start": rng.choice(["bare", "collar", "full", "full"]), "hold": rng.random() < 0.5, "peek": rng.choice(["always", "sparse"])}
 
     def simplify_config(self, cfg):
         out = []
@@ -332,7 +332,9 @@ class DrillholeScenario(BaseScenario):
                             sim.fault("ev:" + kind)
                     trace.append(f"{kind}:{outcome}")
                     sim.record("op", op["id"], kind, outcome, len(st["depths"]), len(st["intervals"]))
-                    self.check(sim, ws, st, f"{kind}:after")
+                    # looking fills the hole's caches (positions, values): in "sparse" runs most events go unobserved
+                    if cfg.get("peek", "always") == "always" or random.Random(H(op["sub"], "peek")).random() < 0.35:
+                        self.check(sim, ws, st, f"{kind}:after")
                     if sim.gc_mode == "op" and random.Random(H(op["sub"], "gcop")).random() < sim.gc_density:
                         sim.collect("op")
                 st["slots"].clear()
